@@ -7,6 +7,7 @@ import (
 	"fmt"
 	"math/rand"
 	"os"
+	"os/exec"
 	"path/filepath"
 	"strconv"
 	"strings"
@@ -99,7 +100,15 @@ func newCluster(ctx *Ctx, withDirs bool, snapT uint64, snapI time.Duration) *cCl
 	if withDirs {
 		c.root = mkScratch("c07")
 	}
+	raceLane := os.Getenv("VERIF_C07_RACE") != ""
 	setHook(func(name string, args ...interface{}) {
+		if raceLane && name == "ks.setValues" {
+			// delay injection between a handler's in-place work on a value and its write-back: widens the
+			// window in which an unsynchronised reader on the same node would overlap (harmless when the
+			// command lock is held, as it must be)
+			time.Sleep(150 * time.Microsecond)
+			return
+		}
 		if name == "raft.snap.persist" && len(args) == 1 {
 			id, _ := args[0].(string)
 			c.stallMu.Lock()
@@ -121,6 +130,9 @@ func newCluster(ctx *Ctx, withDirs bool, snapT uint64, snapI time.Duration) *cCl
 			return
 		}
 		id, _ := args[0].(string)
+		if !strings.HasPrefix(id, c.tag+"-") {
+			return // a node of an earlier cluster of this process that is still winding down
+		}
 		idx, _ := args[1].(uint64)
 		data, _ := args[2].([]byte)
 		var req struct {
@@ -380,12 +392,27 @@ func checkC07(ctx *Ctx) {
 	ctx.Assume("all nodes of a cluster share one virtual clock that does not move during a history, so relative expiries evaluate identically on every replica",
 		"cluster formation, elections and gossip run on real timers: not reaching quiescence or a leader within the watchdog is inconclusive, never a violation",
 		"no key expires during a cluster history: touching an expired key on a cluster leader is the listed finding C07-KF2")
+	if os.Getenv("VERIF_C07_RACE") == "" && !ctx.IsWorker() {
+		// race-detector lane: in-memory histories re-run in a child built with -race, concurrently with the main lanes
+		raceDone := c07RaceLane(ctx)
+		defer func() {
+			<-raceDone
+			c07Aggregate(ctx)
+		}()
+	}
 	if ctx.Fork(8, "", ctx.Watchdog()) {
-		c07Aggregate(ctx)
 		return
 	}
 	quietLogs()
 	n := ctx.N(8, 64)
+	if os.Getenv("VERIF_C07_RACE") != "" {
+		// child of the race lane: in-memory histories only (boltdb's unsafe page casts trip checkptr, which -race enables)
+		for i := 0; i < ctx.N(2, 8); i++ {
+			ctx.SetCurrent(fmt.Sprintf("C07 race-lane history %d seed %d", 2*i, ctx.Seed))
+			c07History(ctx, 2*i)
+		}
+		return
+	}
 	for i := 0; i < n; i++ {
 		if !ctx.Mine(i) {
 			continue
@@ -478,9 +505,12 @@ func (h *c07Run) converge(event string) bool {
 		h.bad = true
 		return false
 	}
+	if h.leaderMoved() {
+		return false
+	}
 	ld := h.c.dump(l)
 	if d := model.DiffCanon(h.sess.st.CanonAt(h.c.clk.NowNs()), ld); d != "" {
-		h.ctx.Violate(Violation{Kind: "leader_state", Lane: h.lane, What: fmt.Sprintf("after %s the leader's dataset differs from the reference: %s", event, d),
+		h.violate(Violation{Kind: "leader_state", Lane: h.lane, What: fmt.Sprintf("after %s the leader's dataset differs from the reference: %s", event, d),
 			Case: map[string]interface{}{"script": h.scriptCopy(), "leader_log_tail": h.c.logTail(l.id, 12)}, Key: "c07|leader|" + event + "|" + firstDiffKind(d)})
 		h.bad = true
 	}
@@ -492,7 +522,7 @@ func (h *c07Run) converge(event string) bool {
 		nd := h.c.dump(n)
 		h.ctx.Class(fmt.Sprintf("%s|converge|%s|nodes=%d|%s", h.lane, event, len(h.c.aliveNodes()), typesPresent(ld)))
 		if d := model.DiffCanon(ld, nd); d != "" {
-			h.ctx.Violate(Violation{Kind: "divergence", Lane: h.lane,
+			h.violate(Violation{Kind: "divergence", Lane: h.lane,
 				What: fmt.Sprintf("after %s and observed quiescence, node %s differs from the leader %s (want = leader): %s", event, n.id, l.id, d),
 				Case: map[string]interface{}{"script": h.scriptCopy(), "node_log_tail": h.c.logTail(n.id, 12), "leader_log_tail": h.c.logTail(l.id, 12)},
 				Key:  "c07|divergence|" + event + "|" + firstDiffKind(d)})
@@ -546,7 +576,35 @@ func (h *c07Run) leaderSteps(k int) {
 	}
 }
 
+// leaderMoved: the node the history is driven through is no longer the leader (an election the history
+// did not ask for: possible when the machine is so slow that heartbeats time out). What was observed
+// since cannot be judged against "the leader": the history ends as inconclusive.
+func (h *c07Run) leaderMoved() bool {
+	if h.sess == nil {
+		return false
+	}
+	l := h.c.leader()
+	if l != nil && l.in == h.sess.in {
+		return false
+	}
+	h.ctx.Inconclusive("C07: leadership moved spontaneously during a history (not requested by the harness)")
+	h.ctx.Count("spontaneous_leader_changes", 1)
+	h.bad = true
+	return true
+}
+
+// violate records a violation unless the history lost its footing (see leaderMoved).
+func (h *c07Run) violate(v Violation) {
+	if h.leaderMoved() {
+		return
+	}
+	h.ctx.Violate(v)
+}
+
 func (h *c07Run) report(v *Violation) {
+	if h.leaderMoved() {
+		return
+	}
 	v.Lane = h.lane
 	cm, _ := v.Case.(map[string]interface{})
 	if cm == nil {
@@ -633,7 +691,7 @@ func (h *c07Run) followerWrite() {
 	h.log("%s(forward=%v db=%d)> %s -> %s", f.id, f.o.Forward, db, Step{Argv: argv}.String(), trunc(v.String(), 80))
 	h.ctx.Eval(1)
 	if err != nil {
-		h.ctx.Violate(Violation{Kind: "follower_io", Lane: h.lane, What: fmt.Sprintf("write %s sent to follower %s: %v (raw %q)", Step{Argv: argv}.String(), f.id, err, trunc(string(raw), 80)),
+		h.violate(Violation{Kind: "follower_io", Lane: h.lane, What: fmt.Sprintf("write %s sent to follower %s: %v (raw %q)", Step{Argv: argv}.String(), f.id, err, trunc(string(raw), 80)),
 			Case: map[string]interface{}{"script": h.scriptCopy()}, Key: "c07|follower|io"})
 		h.bad = true
 		return
@@ -641,7 +699,7 @@ func (h *c07Run) followerWrite() {
 	if !f.o.Forward {
 		h.ctx.Class(fmt.Sprintf("%s|follower-reject|%s|%s", h.lane, strings.ToUpper(argv[0]), outcomeClass(v)))
 		if !v.IsError() {
-			h.ctx.Violate(Violation{Kind: "follower_accepts", Lane: h.lane,
+			h.violate(Violation{Kind: "follower_accepts", Lane: h.lane,
 				What: fmt.Sprintf("follower %s (forwarding disabled) answered %s to the write %s instead of rejecting it", f.id, trunc(v.String(), 80), Step{Argv: argv}.String()),
 				Case: map[string]interface{}{"script": h.scriptCopy()}, Key: "c07|follower|accepted|" + strings.ToUpper(argv[0])})
 			h.bad = true
@@ -652,7 +710,7 @@ func (h *c07Run) followerWrite() {
 			return
 		}
 		if d := model.DiffCanon(before, h.c.dump(f)); d != "" {
-			h.ctx.Violate(Violation{Kind: "follower_applies", Lane: h.lane,
+			h.violate(Violation{Kind: "follower_applies", Lane: h.lane,
 				What: fmt.Sprintf("follower %s (forwarding disabled) changed its own dataset on the client write %s: %s", f.id, Step{Argv: argv}.String(), d),
 				Case: map[string]interface{}{"script": h.scriptCopy()}, Key: "c07|follower|applied-locally|" + strings.ToUpper(argv[0])})
 			h.bad = true
@@ -706,7 +764,7 @@ func (h *c07Run) followerWrite() {
 		if len(outs) > 0 && outs[0].State != nil {
 			d = model.DiffCanon(outs[0].State.CanonAt(env.Now), ld)
 		}
-		h.ctx.Violate(Violation{Kind: "forward_effect", Lane: h.lane,
+		h.violate(Violation{Kind: "forward_effect", Lane: h.lane,
 			What: fmt.Sprintf("write %s forwarded by follower %s from a connection on database %d: the cluster's dataset is not the one the command produces there: %s", Step{Argv: argv}.String(), f.id, db, d),
 			Case: map[string]interface{}{"script": h.scriptCopy(), "leader_log_tail": h.c.logTail(l.id, 6)}, Key: fmt.Sprintf("c07|forward|effect|db0=%v", db == 0)})
 		h.bad = true
@@ -757,7 +815,7 @@ func (h *c07Run) forwardBurst() {
 		v, _, err := cl.Do(argv...)
 		h.log("%s(forward burst db=%d)> %s -> %s", f.id, db, Step{Argv: argv}.String(), trunc(v.String(), 40))
 		if err != nil || v.IsError() {
-			h.ctx.Violate(Violation{Kind: "forward_reply", Lane: h.lane, What: fmt.Sprintf("forwarding follower %s answered %s / %v to %s", f.id, v.String(), err, Step{Argv: argv}.String()),
+			h.violate(Violation{Kind: "forward_reply", Lane: h.lane, What: fmt.Sprintf("forwarding follower %s answered %s / %v to %s", f.id, v.String(), err, Step{Argv: argv}.String()),
 				Case: map[string]interface{}{"script": h.scriptCopy()}, Key: "c07|forward|burst-reply"})
 			h.bad = true
 			return
@@ -790,7 +848,7 @@ func (h *c07Run) forwardBurst() {
 	sets, incrs := count()
 	h.ctx.Count("forward_sent", int64(len(cmds)))
 	if sets > 4 || incrs > same {
-		h.ctx.Violate(Violation{Kind: "forward_duplicate", Lane: h.lane,
+		h.violate(Violation{Kind: "forward_duplicate", Lane: h.lane,
 			What: fmt.Sprintf("follower %s acknowledged 4 SETs of distinct keys and %d identical INCRs sent back to back; the leader's log received %d SETs and %d INCRs", f.id, same, sets, incrs),
 			Case: map[string]interface{}{"script": h.scriptCopy(), "leader_log_tail": h.c.logTail(l.id, 12)}, Key: "c07|forward|burst|duplicate"})
 		h.bad = true
@@ -979,6 +1037,43 @@ func c07History(ctx *Ctx, i int) {
 		}
 	}
 	ctx.Count("clusters_formed", 1)
+	if os.Getenv("VERIF_C07_RACE") != "" {
+		// under the race detector: clients keep reading on every node (reads are served locally) while
+		// the state machines apply the history
+		stop := make(chan struct{})
+		var rwg sync.WaitGroup
+		defer func() { close(stop); rwg.Wait() }()
+		for _, n := range c.nodes {
+			rwg.Add(1)
+			go func(n *cNode) {
+				defer rwg.Done()
+				cl, err := DialHost(n.o.BindAddr, n.o.Port)
+				if err != nil {
+					return
+				}
+				defer cl.Close()
+				rr := rand.New(rand.NewSource(int64(len(n.id))))
+				keys := []string{"a", "b", "c", "d", "e", "f", "k1", "k2", "k3", "k4", "k5"}
+				reads := [][]string{{"GET"}, {"LRANGE", "0", "-1"}, {"HGETALL"}, {"SMEMBERS"}, {"ZRANGE", "0", "-1", "WITHSCORES"}, {"TYPE"}, {"TTL"}, {"STRLEN"}, {"SCARD"}, {"HLEN"}, {"LLEN"}, {"ZCARD"}}
+				for k := 0; ; k++ {
+					select {
+					case <-stop:
+						return
+					default:
+					}
+					if k%16 == 0 {
+						cl.Do("SELECT", strconv.Itoa(c07DBs[rr.Intn(len(c07DBs))]))
+					}
+					rd := reads[rr.Intn(len(reads))]
+					argv := append([]string{rd[0], keys[rr.Intn(len(keys))]}, rd[1:]...)
+					if _, _, err := cl.Do(argv...); err != nil {
+						return // node shut down
+					}
+					ctx.Count("race_lane_background_reads", 1)
+				}
+			}(n)
+		}
+	}
 	h.attach(c.leader())
 	chunk := ctx.N(25, 40)
 	phase := func(name string, steps int) bool {
@@ -1344,4 +1439,60 @@ func c07WitnessSkew(ctx *Ctx) bool {
 		}
 	}
 	return reproduced
+}
+
+// c07RaceLane runs in-memory cluster histories in a child process built with the race detector and
+// turns its reports about repository code into violations. The returned channel is closed when done.
+func c07RaceLane(ctx *Ctx) chan struct{} {
+	done := make(chan struct{})
+	bin := os.Getenv("VERIFD_RACE_BIN")
+	if bin == "" {
+		ctx.Count("race_lane_skipped_no_race_build", 1)
+		close(done)
+		return done
+	}
+	go func() {
+		defer close(done)
+		root := mkScratch("c07race")
+		defer os.RemoveAll(root)
+		out := filepath.Join(root, "out.json")
+		raceLog := filepath.Join(root, "race")
+		errf := filepath.Join(root, "stderr")
+		ef, _ := os.Create(errf)
+		cmd := exec.Command("timeout", "-s", "QUIT", strconv.Itoa(int(ctx.Watchdog().Seconds())), bin, "worker", "-prop", "C07", "-tier", ctx.Tier,
+			"-seed", strconv.FormatInt(ctx.Seed, 10), "-shard", "0", "-n", "1", "-out", out)
+		cmd.Env = append(os.Environ(), "VERIF_C07_RACE=1", "GORACE=halt_on_error=0 log_path="+raceLog)
+		cmd.Stdout, cmd.Stderr = ef, ef
+		err := cmd.Run()
+		ef.Close()
+		if b, rerr := os.ReadFile(out); rerr == nil {
+			var e ctxExport
+			if json.Unmarshal(b, &e) == nil {
+				// the child's evaluations are the same kind of cases as the main lane's; only its verdicts are merged
+				e.Samples = nil
+				ctx.merge(e)
+			}
+		}
+		if err != nil {
+			code := -1
+			if ee, ok := err.(*exec.ExitError); ok {
+				code = ee.ExitCode()
+			}
+			switch {
+			case code == 66:
+				// the race detector's exit status after reports: read from its log below
+			case code == 124:
+				ctx.Inconclusive("C07 race lane: watchdog")
+			default:
+				fatal := fatalSection(errf, 6000)
+				p := saveArtefact(ctx.Prop, "race-lane-crash", fatal+"\n[...]\n"+tailFile(errf, 8000))
+				ctx.Violate(Violation{Kind: "crash", Lane: "race-detector", What: fmt.Sprintf("the race-build child died (exit %d): %s", code, trunc(fatal, 1200)),
+					Case: map[string]interface{}{"stderr": p}, Key: "c07|race-lane-crash|" + firstFatalLine(fatal)})
+			}
+		}
+		n := collectRaceReports(ctx, raceLog, "c07", map[string]interface{}{"lane": "cluster histories under -race"})
+		ctx.Count("race_reports", int64(n))
+		ctx.Count("race_lane_runs", 1)
+	}()
+	return done
 }
